@@ -438,10 +438,18 @@ class Ex:
             self.obligations.append(Obligation(oid, "discharged", detail or "trivial", 0.0, path))
             return True
         neg = z3.Not(f)
-        r = self._check([neg], self.VC_TIMEOUT_MS)
+        # fast path: incremental solver; then a fresh one-shot solver (stronger preprocessing); then cvc5
+        r = self._check([neg], min(2500, self.VC_TIMEOUT_MS))
         backend = "z3"
         model = None
         size = len(self.solver.sexpr()) + len(neg.sexpr())
+        if r == z3.unknown:
+            s2 = z3.Solver()
+            s2.set("timeout", self.VC_TIMEOUT_MS)
+            s2.add(self.solver.assertions())
+            s2.add(neg)
+            r = s2.check()
+            backend = "z3-oneshot"
         if r == z3.unknown:
             from .solve import cvc5_check
             r2 = cvc5_check(self.solver, [neg], timeout_s=self.VC_TIMEOUT_MS // 1000)
@@ -452,7 +460,7 @@ class Ex:
             st = "discharged"
         elif r == z3.sat:
             st = "refuted"
-            model = self._extract_model(neg) if backend == "z3" else {"note": "refuted by cvc5; no model extracted"}
+            model = self._extract_model(neg) if backend.startswith("z3") else {"note": "refuted by cvc5; no model extracted"}
         else:
             st = "unknown"
         ob = Obligation(oid, st, detail or str(fs)[:300], time.time() - t0, path, model, backend, size)
